@@ -57,7 +57,9 @@ def pairing(chk, F):
         raise AnchorLost("to_list: expected one zip of names and parts, found %d" % len(zips))
     bb, t = zips[0]
     a = [ap_str(fn.apath(x)) for x in t["args"]]
-    names_ok = any(x == "core::slice::<impl [T]>::iter(arg3)" for x in a)
+    import c02 as _c02
+    LIST = _c02.param_of_type(fn, "&[") or 3      # the names parameter is the slice, wherever it stands
+    names_ok = any(x == "core::slice::<impl [T]>::iter(arg%d)" % LIST for x in a)
     parts_ok = any(x.endswith("into_iter(alloc::vec::Vec::<T>::new())") or "IntoIterator>::into_iter(" in x and "Vec" in x and "skip" not in x for x in a)
     chk.decide(names_ok and parts_ok, "positional-pairing", fk, "zip-names-with-parts", fn.where(bb),
                "the reply zips the caller's names, from the first, with the parts in the order they were computed",
